@@ -495,9 +495,9 @@ fn run(run: &mut Run) {
     run.assume("non-orthogonal side/alignment pairs, Center/Ports alignment, placement relative to arrays/groups and relative array placement are unimplemented in the code and outside the quantifier");
     run.min_nontrivial = 200;
     run.enumerate("relation-table", table_total(), &table_case);
-    run.explore("programs", run.tier.pick(100_000, 1_000_000), 400, &program_case);
-    run.explore("cyclic", run.tier.pick(20_000, 120_000), 400, &cyclic_case);
-    run.explore("arrays", run.tier.pick(100_000, 800_000), 200, &array_case);
+    run.explore("programs", run.tier.pick(250_000, 3_000_000), 400, &program_case);
+    run.explore("cyclic", run.tier.pick(40_000, 400_000), 400, &cyclic_case);
+    run.explore("arrays", run.tier.pick(200_000, 2_000_000), 200, &array_case);
 }
 fn case(sub: &str) -> Option<Box<CaseFn<'static>>> {
     match sub {
